@@ -3,7 +3,7 @@
 # Confirms a seeded change delivered in /tmp/mut/<Cxx>/_out (demo passes clean, suite passes + demo fails with the
 # patch; DEMO_FEATURES=smallvec runs the demo with that crate feature), runs the given checks against the patched scratch checkout, and stores the change under /verif/seeded/.
 P=$1; K=$2; shift 2
-W=/tmp/mut/$P
+W=${MUT_ROOT:-/tmp/mut}/$P
 O=$W/_out
 cd $W || exit 2
 git checkout -q -- . ; rm -f tests/demo$K.rs
